@@ -519,3 +519,72 @@ package gnet
 //@   ensures !old(c.opened) ==> err == nil
 //@   loop 1:
 //@     invariant el == el$0 && c == c$0 && c.loop == el && c.fd == old(c.fd) && elwf(el) && c.opened && CI(c) && len(c.buffer) == 0 && recv >= 0
+
+// ---------------------------------------------------------------------------------------------
+// C19: the control API of an Engine handle obeys its state machine. Every method starts with the same guard
+// (Validate): a handle that was never started (no engine or no listeners) reports ErrEmptyEngine, one whose engine has
+// completed shutdown reports ErrEngineInShutdown, CountConnections turns either into -1. Only that guard is under
+// proof (the bodies behind it use channels, map iteration and contexts: `stop` clauses end the paths there).
+//@ pure emptyeng(e Engine) := e.eng == nil || len(e.eng.listeners) == 0
+//@ pure shutd(eng *engine) := eng.inShutdown.v != 0
+//
+//@ func (eng *engine) isShutdown() bool
+//@   requires eng != nil
+//@   ensures res <==> shutd(eng)
+//
+//@ func (eng *engine) shutdown(err error)
+//@   noverify cancels the engine's context through a stored function value and logs
+//@   requires eng != nil
+//
+//@ iface loadBalancer.len() (n int)
+//@   ensures n >= 0
+//@ iface loadBalancer.iterate(f func(int, *eventloop) bool)
+//@   modifies-all-except engine, eventloop, Options, listener
+// engwf: a started engine has a load balancer.
+//@ pred engwf(e Engine) := emptyeng(e) || e.eng.eventLoops != nil
+//
+//@ func (e Engine) Validate() (err error)
+//@   ensures emptyeng(e) ==> err == errorx.ErrEmptyEngine
+//@   ensures !emptyeng(e) && shutd(e.eng) ==> err == errorx.ErrEngineInShutdown
+//@   ensures !emptyeng(e) && !shutd(e.eng) ==> err == nil
+//
+//@ func (e Engine) CountConnections() (count int)
+//@   requires engwf(e)
+//@   modifies-all-except engine, eventloop, Options, listener
+//@   let verr after (Engine).Validate #1 := result
+//@   assert after (Engine).Validate #1: (emptyeng(e) || shutd(e.eng)) <==> verr != nil
+//@   stop after iterate #1
+//@   ensures emptyeng(e) || shutd(e.eng) ==> count == -1
+//
+//@ func (e Engine) Dup() (fd int, err error)
+//@   requires engwf(e)
+//@   modifies-all-except engine, eventloop, Options, listener
+//@   assert at loop 1: !emptyeng(e) && !shutd(e.eng) && len(e.eng.listeners) <= 1
+//@   stop at loop 1
+//@   ensures emptyeng(e) ==> fd == -1 && err == errorx.ErrEmptyEngine
+//@   ensures !emptyeng(e) && shutd(e.eng) ==> fd == -1 && err == errorx.ErrEngineInShutdown
+//@   ensures !emptyeng(e) && !shutd(e.eng) && len(e.eng.listeners) > 1 ==> fd == -1 && err == errorx.ErrUnsupportedOp
+//
+//@ func (e Engine) DupListener(network, addr string) (fd int, err error)
+//@   requires engwf(e)
+//@   modifies-all-except engine, eventloop, Options, listener
+//@   assert at loop 1: !emptyeng(e) && !shutd(e.eng)
+//@   stop at loop 1
+//@   ensures emptyeng(e) ==> fd == -1 && err == errorx.ErrEmptyEngine
+//@   ensures !emptyeng(e) && shutd(e.eng) ==> fd == -1 && err == errorx.ErrEngineInShutdown
+//
+//@ func (e Engine) Stop(ctx context.Context) (err error)
+//@   requires engwf(e)
+//@   modifies-all-except eventloop, Options, listener
+//@   assert after (*engine).shutdown #1: !emptyeng(e) && !shutd(e.eng)
+//@   stop after (*engine).shutdown #1
+//@   ensures emptyeng(e) ==> err == errorx.ErrEmptyEngine
+//@   ensures !emptyeng(e) && shutd(e.eng) ==> err == errorx.ErrEngineInShutdown
+//
+//@ func (e Engine) Register(ctx context.Context) (ch <-chan RegisteredResult, err error)
+//@   requires engwf(e)
+//@   modifies-all-except engine, Options, listener
+//@   assert after len #1: !emptyeng(e) && !shutd(e.eng)
+//@   stop after len #1
+//@   ensures emptyeng(e) ==> err == errorx.ErrEmptyEngine
+//@   ensures !emptyeng(e) && shutd(e.eng) ==> err == errorx.ErrEngineInShutdown
